@@ -16,6 +16,7 @@ import (
 	"github.com/vektah/gqlparser/v2/gqlerror"
 
 	"github.com/99designs/gqlgen/graphql"
+	"github.com/99designs/gqlgen/graphql/errcode"
 	"github.com/99designs/gqlgen/graphql/handler"
 	"github.com/99designs/gqlgen/graphql/handler/extension"
 	"github.com/99designs/gqlgen/graphql/handler/lru"
@@ -197,33 +198,90 @@ type Case struct {
 	Order   string       `json:"order"`
 	History string       `json:"history,omitempty"`
 	Before  []Step       `json:"before,omitempty"`
+	// server side: what the selected operation's resolver does ("" = returns its value) and how
+	// errors are presented ("" = default presenter); see resolverOutcomes / presentations
+	Resolver string `json:"resolver,omitempty"`
+	Present  string `json:"presentation,omitempty"`
+}
+
+// resolverOutcomes: the resolver always returns its value; besides that it reports
+//
+//	value            nothing
+//	error            a plain error
+//	error-validation an error whose extensions.code is GRAPHQL_VALIDATION_FAILED (e.g. forwarded from upstream)
+//	error-parse      ... GRAPHQL_PARSE_FAILED
+//	error-protocol   ... VERIF_PROTOCOL, registered with errcode.RegisterErrorType as KindProtocol
+//	error-user       ... VERIF_USER, registered as KindUser
+var resolverOutcomes = []string{"value", "error", "error-validation", "error-parse", "error-protocol", "error-user"}
+
+// presentations: default error presenter; a presenter that answers a copy of the error without
+// extensions; an AroundResponses middleware that replaces every error of a response by a new one.
+var presentations = []string{"default", "strip-extensions", "rewrite-middleware"}
+
+func init() {
+	errcode.RegisterErrorType("VERIF_PROTOCOL", errcode.KindProtocol)
+	errcode.RegisterErrorType("VERIF_USER", errcode.KindUser)
+}
+
+func resolverError(outcome string) *gqlerror.Error {
+	code := ""
+	switch outcome {
+	case "", "value":
+		return nil
+	case "error-validation":
+		code = errcode.ValidationFailed
+	case "error-parse":
+		code = errcode.ParseFailed
+	case "error-protocol":
+		code = "VERIF_PROTOCOL"
+	case "error-user":
+		code = "VERIF_USER"
+	}
+	e := &gqlerror.Error{Message: "resolver reported " + outcome}
+	if code != "" {
+		e.Extensions = map[string]any{"code": code}
+	}
+	return e
 }
 
 // steps flattens a case into the single-request cases its responses are judged as.
 func (c Case) steps() []Case {
 	var out []Case
 	for _, b := range c.Before {
-		out = append(out, Case{Doc: b.Doc, OpName: b.OpName, Carrier: b.Carrier, Accept: b.Accept, RH: c.RH, Order: c.Order})
+		out = append(out, Case{Doc: b.Doc, OpName: b.OpName, Carrier: b.Carrier, Accept: b.Accept, RH: c.RH, Order: c.Order,
+			Resolver: c.Resolver, Present: c.Present})
 	}
-	return append(out, Case{Doc: c.Doc, OpName: c.OpName, Carrier: c.Carrier, Accept: c.Accept, RH: c.RH, Order: c.Order})
+	return append(out, Case{Doc: c.Doc, OpName: c.OpName, Carrier: c.Carrier, Accept: c.Accept, RH: c.RH, Order: c.Order,
+		Resolver: c.Resolver, Present: c.Present})
 }
 
 // ---- servers -----------------------------------------------------------------------------
 
 type rig struct {
 	hs      *handschema.Schema
-	servers map[string]*handler.Server // plain servers, reused (they hold no state); key rh|order
+	servers map[string]*handler.Server // plain servers, reused (they hold no state); key rh|order|presentation
+	outcome string                     // resolver outcome of the case being run
 }
 
 func newRig() *rig {
 	hs := handschema.New(nil)
+	r := &rig{hs: hs, servers: map[string]*handler.Server{}}
+	// every resolver yields its value; per the case's resolver outcome it also reports an error
+	hs.Hook = func(ctx context.Context, object, field string, args map[string]any) {
+		if e := resolverError(r.outcome); e != nil {
+			graphql.AddError(ctx, e)
+		}
+	}
 	hs.Sub = func(ctx context.Context, field string, args map[string]any, call int) handschema.SubStep {
+		if e := resolverError(r.outcome); e != nil {
+			graphql.AddError(ctx, e)
+		}
 		return handschema.SubStep{Kind: "emit", Val: 7}
 	}
-	return &rig{hs: hs, servers: map[string]*handler.Server{}}
+	return r
 }
 
-func buildServer(hs *handschema.Schema, rh, order string) *handler.Server {
+func buildServer(hs *handschema.Schema, rh, order, present string) *handler.Server {
 	h := rhMap(rh)
 	// the order handler.NewDefaultServer uses (Options, GET, POST, MultipartForm), then the two
 	// optional form transports
@@ -239,6 +297,26 @@ func buildServer(hs *handschema.Schema, rh, order string) *handler.Server {
 	// graphql.DefaultRecover without its stack dump to stderr (a defect that lets an unvalidated
 	// document reach the schema would otherwise flood the output)
 	srv.SetRecoverFunc(func(ctx context.Context, err any) error { return gqlerror.Errorf("internal system error") })
+	switch present {
+	case "strip-extensions":
+		srv.SetErrorPresenter(func(ctx context.Context, err error) *gqlerror.Error {
+			c := *graphql.DefaultErrorPresenter(ctx, err) // a copy: the caller's error is left alone
+			c.Extensions = nil
+			return &c
+		})
+	case "rewrite-middleware":
+		srv.AroundResponses(func(ctx context.Context, next graphql.ResponseHandler) *graphql.Response {
+			resp := next(ctx)
+			if resp != nil && len(resp.Errors) > 0 {
+				list := make(gqlerror.List, 0, len(resp.Errors))
+				for _, e := range resp.Errors {
+					list = append(list, &gqlerror.Error{Message: "rewritten: " + e.Message, Path: e.Path})
+				}
+				resp.Errors = list
+			}
+			return resp
+		})
+	}
 	if order == "reversed" {
 		for i := len(ts) - 1; i >= 0; i-- {
 			srv.AddTransport(ts[i])
@@ -251,20 +329,20 @@ func buildServer(hs *handschema.Schema, rh, order string) *handler.Server {
 	return srv
 }
 
-func (r *rig) server(rh, order string) *handler.Server {
-	k := rh + "|" + order
+func (r *rig) server(rh, order, present string) *handler.Server {
+	k := rh + "|" + order + "|" + present
 	if s, ok := r.servers[k]; ok {
 		return s
 	}
-	s := buildServer(r.hs, rh, order)
+	s := buildServer(r.hs, rh, order, present)
 	r.servers[k] = s
 	return s
 }
 
 // defaultConfigServer builds a fresh server with the caches handler.NewDefaultServer configures:
 // an LRU query-document cache and the APQ extension (with its own fresh cache).
-func (r *rig) defaultConfigServer(rh, order string) *handler.Server {
-	s := buildServer(r.hs, rh, order)
+func (r *rig) defaultConfigServer(rh, order, present string) *handler.Server {
+	s := buildServer(r.hs, rh, order, present)
 	s.SetQueryCache(lru.New[*ast.QueryDocument](1000))
 	s.Use(extension.AutomaticPersistedQuery{Cache: graphql.MapCache[string]{}})
 	return s
@@ -436,10 +514,12 @@ func (r *rig) run(c Case) []StepObs {
 	var srv *handler.Server
 	steps := c.steps()
 	if c.History != "" || carrierByName(c.Carrier).APQ {
-		srv = r.defaultConfigServer(c.RH, c.Order)
+		srv = r.defaultConfigServer(c.RH, c.Order, c.Present)
 	} else {
-		srv = r.server(c.RH, c.Order)
+		srv = r.server(c.RH, c.Order, c.Present)
 	}
+	r.outcome = c.Resolver
+	defer func() { r.outcome = "" }()
 	out := make([]StepObs, 0, len(steps))
 	for _, st := range steps {
 		car := carrierByName(st.Carrier)
